@@ -56,6 +56,7 @@ import (
 	"time"
 
 	"harness/internal/lp"
+	"harness/internal/track"
 
 	"github.com/lesismal/nbio"
 	"github.com/lesismal/nbio/logging"
@@ -540,9 +541,20 @@ func (c *gconn) SetWriteDeadline(t time.Time) error { return nil }
 
 var sharedEngine *nbhttp.Engine
 
-func engineFor(maxf int) *nbhttp.Engine {
+func engineFor(maxf int, alloc mempool.Allocator) *nbhttp.Engine {
 	// never started: a websocket.Conn only uses its allocator, limits and timers
-	return nbhttp.NewEngine(nbhttp.Config{MaxWebsocketFramePayloadSize: maxf, BodyAllocator: mempool.New(1024, 1<<20), SupportServerOnly: true, MessageHandlerPoolSize: 4})
+	return nbhttp.NewEngine(nbhttp.Config{MaxWebsocketFramePayloadSize: maxf, BodyAllocator: alloc, SupportServerOnly: true, MessageHandlerPoolSize: 4})
+}
+
+// bufferVerdicts: the frame buffers of a websocket conn come from the engine's allocator; the writer cases run on a
+// tracking allocator (harness/internal/track). A buffer returned to the allocator twice, freed while still queued,
+// or written after its release can be handed to two frames at once: one message is overwritten before it is sent
+// (lost) and another one appears twice on the wire. Reported under C14's lost/duplicated clause.
+func bufferVerdicts(e *lp.Exec, tk *track.Tracker, what string) {
+	tk.Audit()
+	for _, v := range tk.Drain() {
+		e.Oracle("c14-lost-dup", "%s: frame buffer ownership violated (%s): %s — the allocator can hand this buffer to two frames at once: one message lost, another duplicated on the wire", what, v.Oracle, v.Detail)
+	}
 }
 
 func retKind(err error) string {
@@ -586,7 +598,8 @@ func runWQ(e *lp.Exec, head string, ops []string) {
 	ws := strings.Fields(head)
 	bound, maxf, client := atoi(field(ws, "bound")), atoi(field(ws, "maxframe")), field(ws, "client") == "1"
 	comp := field(ws, "comp") == "1"
-	eng := engineFor(maxf)
+	tk := track.New()
+	eng := engineFor(maxf, tk)
 	u := websocket.NewUpgrader()
 	u.Engine = eng
 	u.BlockingModSendQueueMaxSize = uint16(bound)
@@ -751,6 +764,7 @@ func runWQ(e *lp.Exec, head string, ops []string) {
 			}
 		}
 	}
+	bufferVerdicts(e, tk, fmt.Sprintf("queued bound=%d", bound))
 	e.Key(shape, gid >= 2)
 	e.Count("cases", "wq")
 	// let a blocked drainer go
@@ -787,7 +801,8 @@ func countOf(ids []string, g int) int {
 func runWD(e *lp.Exec, head string, ops []string) {
 	ws := strings.Fields(head)
 	maxf, client := atoi(field(ws, "maxframe")), field(ws, "client") == "1"
-	eng := engineFor(maxf)
+	tk := track.New()
+	eng := engineFor(maxf, tk)
 	u := websocket.NewUpgrader()
 	u.Engine = eng
 	gc := &gconn{rng: uint32(lp.Fnv([]byte(head)))}
@@ -908,6 +923,7 @@ func runWD(e *lp.Exec, head string, ops []string) {
 			}
 		}
 	}
+	bufferVerdicts(e, tk, "direct")
 	e.Key(shape, gid >= 2)
 	e.Count("cases", "wd")
 }
